@@ -11,7 +11,11 @@ HARMLESS = {
  'C06-2': 'harmless on the repaired tree: the 80-byte header-to-record bound (fix 4e4d008) drops the stale address before a foreign record can be paired with it; its own demonstration passes on HEAD+patch, so no alarm is expected and none is raised',
  'C04-1': 'harmless on the repaired tree for users: Volume::Access rejects lba >= len (fix 11bfc4c) and an over-long catalogue makes the drive unmountable, so no command can request a sector beyond the surface; its own demonstration passes on HEAD+patch. The regenerated leaf no longer matches the C04 proofs, so the check reports a proof break without a failing input',
  'C17-1': 'same mechanism as C04-1 (FileView bound): harmless on the repaired tree, demonstration passes; reported as a proof break without a failing input',
+ 'C11-2': 'harmless since fix be6a0dc (main() asks ferror(stdout), which stays set after the per-file fflush failed): its own demonstration passes on HEAD+patch, so no alarm is expected and none is raised',
+ 'C11-3': 'harmless since fix be6a0dc (same reason as C11-2): its own demonstration passes on HEAD+patch',
+ 'C11-7': 'harmless since fix be6a0dc (same reason as C11-2): its own demonstration passes on HEAD+patch',
 }
+NOT_REPORTED_OK = ('C06-2', 'C11-2', 'C11-3', 'C11-7')
 rows = []
 for m in sorted(os.listdir(os.path.join(V, 'seeded'))):
     d = os.path.join(V, 'seeded', m)
@@ -19,20 +23,20 @@ for m in sorted(os.listdir(os.path.join(V, 'seeded'))):
         continue
     readme = open(os.path.join(d, 'README.md')).read()
     title = readme.split('\n')[0].lstrip('# ').strip()
-    mm = re.search(r'## What it needs[^\n]*\n(.*?)(\n## |\Z)', readme, re.S)
+    mm = re.search(r'##+ (?:What it needs|Needs|What is needed|Trigger)[^\n]*\n(.*?)(\n##+ |\Z)', readme, re.S | re.I)
     needs = ' '.join(mm.group(1).split())[:900] if mm else ''
     pid = m.split('-')[0]
     verdict, nv, ni, first = res.get(m, ('?', '0', '0', ''))
     first = first.strip()
     if m in HARMLESS:
-        outcome = 'not-reported' if m == 'C06-2' else 'reported-without-failing-input'
+        outcome = 'not-reported' if m in NOT_REPORTED_OK else 'reported-without-failing-input'
     elif first.startswith('violation:'):
         outcome = 'detected-with-failing-input'
     elif first:
         outcome = 'reported-without-failing-input'
     else:
         outcome = 'not-reported'
-    meta = {'property': pid, 'title': title, 'round': 1 if int(m.split('-')[1]) <= 2 else 2, 'needs_to_manifest': needs,
+    meta = {'property': pid, 'title': title, 'round': {1: 1, 2: 1, 3: 2, 4: 2, 5: 2, 6: 3, 7: 3}.get(int(m.split('-')[1]), 4), 'needs_to_manifest': needs,
             'what_i_ran': ['tools/demo_mutant.sh /verif/seeded/%s   # HEAD+patch in a scratch worktree: 39/39 tests pass; demonstration.sh exits non-zero (property violated)' % m,
                            'tools/try_patch.sh /verif/seeded/%s/patch.diff -- %s   # git -C /repo apply; ./check %s --tier quick; git -C /repo checkout -- .' % (m, pid, pid)],
             'check_outcome': outcome, 'first_report': first[:300], 'note': HARMLESS.get(m, '')}
